@@ -68,7 +68,7 @@ SetChildOps == {[op |-> "setchild", h |-> 1, name |-> nm.name, sep |-> nm.sep, i
 FreshHandle(op) == LET r == Apply(Known, K, op) IN
                    r.res = "ok" /\ r.st.hs[Len(r.st.hs)] \notin {K.hs[i] : i \in 1..NH}
 InBounds(op) == LET fs == PathOf(op.name, op.idx) IN
-                /\ SetMaxIdx(fs) < MaxArr
+                /\ (SetMaxIdx(fs) < MaxArr \/ SetMaxIdx(fs) > DefaultMaxIdx)      \* (beyond MaxIdx: an error, nothing grows)
                 /\ Cardinality(DOMAIN K.H) + SetGrowth(Known, K.H, K.hs[op.h], fs) <= MaxNodes
 
 Next ==
